@@ -420,7 +420,7 @@ fn simple_case(s: &mut Session, g: &SG, group: &'static str) -> Option<Vec<u8>> 
             "simple-length>=canonical-shortest",
             bytes.len() >= want,
             || format!("S {}", sg_spec(g)),
-            || format!("len {} canonical {} (oracle's own bound is wrong)", bytes.len(), want),
+            || format!("len {} canonical {} (shorter than the canonical even-padded size: missing padding, or the oracle's own bound is wrong)", bytes.len(), want),
         );
     }
     Some(bytes)
@@ -697,8 +697,17 @@ fn build_case(s: &mut Session, glyphs: &[G], big: bool) {
     // oracles on the real tables
     let want_long = glyf_bytes.len() >= 0x20000;
     s.oracle("loca-short-iff-glyf<0x20000", is_long == want_long, || format!("glyf len {}", glyf_bytes.len()), || format!("{fmt:?}"));
-    let rglyf_t = rglyf::Glyf::read(FontData::new(&glyf_bytes)).unwrap();
-    let rloca = read_fonts::tables::loca::Loca::read(FontData::new(&loca_bytes), is_long).unwrap();
+    let parsed = (
+        rglyf::Glyf::read(FontData::new(&glyf_bytes)),
+        read_fonts::tables::loca::Loca::read(FontData::new(&loca_bytes), is_long),
+    );
+    let (rglyf_t, rloca) = match parsed {
+        (Ok(g), Ok(l)) => (g, l),
+        _ => {
+            s.oracle("built-tables-parse", false, || format!("{} glyphs, loca {}", glyphs.len(), hex(&loca_bytes)), || "Glyf/Loca::read failed".into());
+            return;
+        }
+    };
     s.oracle("loca-len", rloca.len() == glyphs.len(), || format!("{} glyphs", glyphs.len()), || format!("{}", rloca.len()));
     let base = glyf_bytes.as_ptr() as usize;
     let mut pos = 0usize;
@@ -778,8 +787,13 @@ fn loca_write_case(s: &mut Session, offs: &[u32]) {
         s.oracle("loca-short-iff-even-and-small", (*f == LocaFormat::Short) == (even && small), || join(offs), || format!("{f:?}"));
         // when offsets are monotone the table reads back exactly
         if offs.windows(2).all(|w| w[0] <= w[1]) {
-            let rl = read_fonts::tables::loca::Loca::read(FontData::new(b), *f == LocaFormat::Long).unwrap();
-            let back: Vec<u32> = (0..offs.len()).map(|i| rl.get_raw(i).unwrap()).collect();
+            let back: Vec<u32> = catch(|| {
+                let rl = read_fonts::tables::loca::Loca::read(FontData::new(b), *f == LocaFormat::Long).ok()?;
+                (0..offs.len()).map(|i| rl.get_raw(i)).collect::<Option<Vec<u32>>>()
+            })
+            .ok()
+            .flatten()
+            .unwrap_or_else(|| vec![u32::MAX]);
             s.oracle("loca-raw-roundtrip", back == offs, || join(offs), || join(&back));
         }
     }
@@ -787,7 +801,7 @@ fn loca_write_case(s: &mut Session, offs: &[u32]) {
 
 fn simple_of_size(size: usize) -> SG {
     // one on-curve point at the origin: 10 + 2 + 2 + L + 1 flag byte, padded to even
-    assert!(size % 2 == 0 && size >= 16);
+    let size = (size & !1usize).max(16);
     let l = size - 15;
     SG { bbox: [0, 0, 0, 0], instr: vec![0x4f; l], contours: vec![vec![(0, 0, true)]] }
 }
@@ -900,7 +914,8 @@ fn gen_path(rng: &mut Rng) -> kurbo::BezPath {
         let pt = |rng: &mut Rng| (rng.range(-grid, grid) as f64, rng.range(-grid, grid) as f64);
         let start = pt(rng);
         path.move_to(start);
-        let nseg = 1 + rng.below(7);
+        // sometimes a lone move point (single-point contour)
+        let nseg = if rng.chance(1, 12) { 0 } else { 1 + rng.below(7) };
         let mut last = start;
         let mut last_ctrl: Option<(f64, f64)> = None;
         for _ in 0..nseg {
@@ -1453,7 +1468,8 @@ fn run(cfg: &Config, s: &mut Session) {
                     v.push(G::S(g));
                 }
             }
-            let mut rest = total - used;
+            // (an odd remainder can only come from a writer that no longer pads glyphs)
+            let mut rest = (total - used) & !1usize;
             while rest > 0xfff0 {
                 v.push(G::S(simple_of_size(0xf000)));
                 rest -= 0xf000;
